@@ -428,6 +428,7 @@ func laterRunFindings(c *Cfg, sc *scen.Scenario) []scen.Finding {
 
 func runC05(c *Cfg) {
 	runSpecial(c, "C05", "partial-func-nodes-done-ctx")
+	runSpecial(c, "C05", "startless-flow-done-ctx")
 	r := c.Rep
 	defer runC05TripAtCheck(c)
 	defer runC05ReusedFlow(c)
